@@ -27,6 +27,11 @@ FIXED = [
  ("raw-mode sockets always failed", "C15", "nni_msgq_aio_get/put called nni_aio_start (which refuses a zero timeout) before looking at the queue: non-blocking receive on raw-mode sockets never returned queued messages, non-blocking send never used free queue space (always NNG_EAGAIN)"),
  ("surveyor waited until the survey deadline", "C15", "surv0_ctx_recv treated a zero timeout like 'none' and replaced it by the survey expiry: nng_recvmsg(surveyor, NNG_FLAG_NONBLOCK) blocked up to SURVEYTIME"),
  ("websocket listener leaked connections", "C03", "ws listener: server-side websockets that had completed the HTTP upgrade but were still on the listener's pending list (or finished their handshake after the listener was closed) were never released on stop/free: nni_ws + http connection + tcp connection leaked (nng_listener_close / socket close on a ws:// listener while clients are in the upgrade handshake)"),
+ ("submitted while the socket was closing never completed", "C10", "nni_msgq_aio_put/get ignored mq_closed: a send/receive on a raw-mode socket that reached the socket queue just after nng_socket_close had closed it was queued on the dead queue and never completed (op_pending_after_close on reqraw/repraw/surveyorraw sockets)"),
+ ("websocket dialer stopped redialing", "C14", "ws dialer: the server hanging up during the HTTP upgrade surfaced as NNG_ECLOSED, which core/dialer.c takes for 'dialer closed': an open dialer never redialed (redial_no_pipe, ws listener socket closed while a client was mid-upgrade)"),
+ ("ending a device could deadlock", "C10", "device_cb closed the device's sockets inline; when the last forwarder aio completed synchronously inside a pipe send callback (pair0_send_sched -> nni_aio_finish_sync) the socket close waited for the pipe to be reaped while the reaper waited in nni_aio_stop for that callback: nng_device_aio never completed after nng_aio_cancel (device_pending_after_close, c10_device seed 1)"),
+ ("while one of its contexts was still being torn down", "C10", "nni_ctx_rele took a closed context off the socket's list and woke the closing socket before tearing the context down; the socket could be freed first and the protocol's ctx teardown then locked the freed protocol socket (asan heap-use-after-free in surv0_ctx_close < surv0_ctx_fini < nni_ctx_destroy < nni_ctx_rele < nng_ctx_sendmsg)"),
+ ("submitted while its socket was being closed could stay pending", "C10", "the protocol's sock_close (which fails waiting operations) runs before the socket is marked closed: an nng_send/nng_recv whose caller had already looked the socket up queued itself after that drain and was never completed (op_pending_after_close on pair0/pair1 and other protocols without their own closed flag)"),
  ("SUB receive descriptor stayed readable", "C15", "sub0_ctx_unsubscribe purged the queue without clearing the readable pollable: the receive poll descriptor stayed readable while non-blocking receive returned NNG_EAGAIN"),
 ]
 log = subprocess.run(["git", "-C", "/repo", "log", "--format=%h %s"], capture_output=True, text=True).stdout.strip().split("\n")
